@@ -109,6 +109,10 @@ pub fn gen_for(prop: &str, seed: u64, _tier: &str) -> Plan {
         Engine::Core if prop == "C04" && seed % 8 == 0 => crate::expert::gen_plan(seed),
         Engine::Core if prop == "C04" && seed % 8 == 1 => crate::mapeng::gen_plan(if seed % 16 == 1 { "C15" } else { "C16" }, seed),
         Engine::Core if prop == "C04" && seed % 16 == 2 => crate::templates::gen_plan(seed),
+        // C02: expert nodes with dependencies added while they are needed (heights must follow)
+        Engine::Core if prop == "C02" && seed % 16 == 4 => crate::expert::gen_plan(seed),
+        // C05: expert nodes are computed only while needed, too
+        Engine::Core if prop == "C05" && seed % 16 == 6 => crate::expert::gen_plan(seed),
         // C07: programs whose expert node writes a variable from its observability callback
         Engine::Core if prop == "C07" && seed % 16 == 3 => crate::expert::gen_plan(seed),
         // C20: a memoised constructor keyed by nodes chained on one keyed by numbers (typed shape)
